@@ -132,6 +132,16 @@ for _sc in ('linear', 'log', 'logicle'):
     CALLS['plot.density2d(%s,bins list)' % _sc] = (_plot((lambda sc: (lambda s, a: FlowCal.plot.density2d(s + 1, channels=a['chs2'], bins=a['bins2'], xscale=sc, yscale=sc, mode='scatter')))(_sc)), True, False)
 CALLS['plot.hist1d(list,bins arr)'] = (_plot(lambda s, a: FlowCal.plot.hist1d(a['pops_full'], channel=1, bins=a['edges'], xscale='linear')), True, False)
 CALLS['plot.scatter2d'] = (_plot(lambda s, a: FlowCal.plot.scatter2d(a['pops_full'], channels=a['chs2'])), True, False)
+# violin plots: populations given as float samples / arrays, linear and log position axes (position 0 on a log axis is drawn apart)
+for _xs in ('linear', 'log'):
+    CALLS['plot.violin(%s,samples)' % _xs] = (_plot((lambda xs: (lambda s, a: FlowCal.plot.violin(a['vpops'], channel=a['vpops'][0].channels[2], positions=[0, 1, 10], xscale=xs, yscale='linear')))(_xs)), True, False)
+    CALLS['plot.violin(%s,arrays)' % _xs] = (_plot((lambda xs: (lambda s, a: FlowCal.plot.violin(a['vpops_1d'], positions=[0, 1, 10], xscale=xs, yscale='linear')))(_xs)), True, False)
+    CALLS['plot.violin_dose_response(%s)' % _xs] = (_plot((lambda xs: (lambda s, a: FlowCal.plot.violin_dose_response(
+        a['vpops'], channel=a['vpops'][0].channels[2], positions=[0, 1, 10], min_data=a['vpops'][0], max_data=a['vpops'][2], xscale=xs, yscale='linear')))(_xs)), True, False)
+# bin generators on samples produced by transform.transform (their range is stored as an array, not as a list)
+for _sc in ('linear', 'log', 'logicle'):
+    CALLS['io.FCSData.hist_bins(%s,transformed)' % _sc] = ((lambda sc: (lambda s, a: a['tsample'].hist_bins(a['tsample'].channels[2], 16, sc)))(_sc), True, False)
+CALLS['io.FCSData.range(transformed)'] = (lambda s, a: a['tsample'].range(), True, False)
 CALLS['plot.density_and_hist'] = (_plot(lambda s, a: FlowCal.plot.density_and_hist(s + 1, gated_data=(s + 1)[2:], density_channels=a['chs2'], hist_channels=a['chs'], density_params=a['dparams'], hist_params=a['hparams'])), True, False)
 
 
@@ -146,6 +156,9 @@ def build_args(s, rng, floaty):
     pops = [pops_src[i * third:(i + 1) * third] for i in range(3)]
     b = np.concatenate([np.abs(np.random.RandomState(3).normal(m, m * 0.03, size=(60, 2))) for m in (50., 300., 900.)])
     return {
+        'vpops': [FlowCal.transform.to_rfi(s[i * third:(i + 1) * third]) for i in range(3)],
+        'vpops_1d': [np.asarray(s[i * third:(i + 1) * third, 2], dtype=np.float64) + 1.0 for i in range(3)],
+        'tsample': FlowCal.transform.transform(s, [names[2], names[0]], np.sqrt if not floaty else (lambda x: np.sqrt(np.abs(np.asarray(x, dtype=float))))),
         'nbins': [8, None], 'scales': ['linear', 'log'], 'plain': np.array(np.asarray(s), dtype=np.float64 if floaty else np.asarray(s).dtype),
         'chs': [names[2], 0], 'chs2': [names[0], names[1]], 'at': [(0, 0), None], 'ag': [None, 2.0], 'res': [None, 1024],
         'sc_list': [lambda x: 2.0 * x + 1, lambda x: 3.0 * x], 'high': [900., 800.], 'low': [1., 2.],
